@@ -53,6 +53,9 @@ pub const K_S: u8 = 3; // ScalarZnx
 pub const K_P: u8 = 4; // SvpPPol
 pub const K_M: u8 = 5; // MatZnx
 pub const K_V: u8 = 6; // VmpPMat
+pub const K_L: u8 = 7; // CnvPVecL
+pub const K_R: u8 = 8; // CnvPVecR
+pub const K_C: u8 = 9; // &[i64] constant of cnv_by_const_apply (e1 words)
 
 #[derive(Clone, Copy, Default, Debug, PartialEq)]
 pub struct Hdr { n: usize, cols: usize, size: usize, max: usize, len: usize, w: usize }
@@ -69,6 +72,7 @@ impl Hdr {
 /// (kinds of res, a, b; res is also an input; digest covers every column of res; uses scratch)
 pub fn op_info(opc: i64) -> Option<([u8; 3], bool, bool, bool)> {
     let z = K_Z; let b = K_B; let d = K_D; let s = K_S; let p = K_P; let m = K_M; let v = K_V; let x = K_NONE;
+    let (l, r, c) = (K_L, K_R, K_C);
     Some(match opc {
         1 => ([z, z, z], false, false, false),  // vec_znx_add_into
         2 => ([z, z, x], true, false, false),   // vec_znx_add_assign
@@ -121,6 +125,13 @@ pub fn op_info(opc: i64) -> Option<([u8; 3], bool, bool, bool)> {
         70 => ([v, m, x], false, true, true),   // vmp_prepare             (rows e0)
         71 => ([d, d, v], false, true, true),   // vmp_apply_dft_to_dft    (rows e0, limb_offset e1)
         72 => ([d, z, v], false, true, true),   // vmp_apply_dft           (rows e0)
+        // convolution layer: prepared operands are exact-size views, so a read past them lands in the guard zone
+        80 => ([l, z, x], false, true, true),   // cnv_prepare_left
+        81 => ([r, z, x], false, true, true),   // cnv_prepare_right
+        82 => ([d, l, r], false, false, true),  // cnv_apply_dft(offset e0)
+        83 => ([d, l, r], false, false, true),  // cnv_pairwise_apply_dft(offset e0, i = a.col, j = b.col)
+        84 => ([b, z, c], false, false, true),  // cnv_by_const_apply(offset e0, constant of e1 words)
+        85 => ([l, r, z], false, true, true),   // cnv_prepare_self (left and right destinations)
         // core level: every ciphertext / plaintext operand is CARVED out of its own scratch window (take_glwe ...)
         90 => ([z, z, x], false, true, true),   // glwe_encrypt_sk  (res: GLWE rank e2, a: plaintext)   base2k e0
         91 => ([z, z, x], false, true, true),   // glwe_decrypt     (res: plaintext, a: GLWE)
@@ -134,7 +145,7 @@ pub fn op_info(opc: i64) -> Option<([u8; 3], bool, bool, bool)> {
 
 pub fn w_of(kind: u8, be: i128) -> usize {
     let ntt = be >= 3;
-    match kind { K_B => if ntt { 16 } else { 8 }, K_D | K_P | K_V => if ntt { 32 } else { 8 }, _ => 8 }
+    match kind { K_B => if ntt { 16 } else { 8 }, K_D | K_P | K_V | K_L | K_R => if ntt { 32 } else { 8 }, _ => 8 }
 }
 
 #[derive(Clone, Copy, Debug)]
@@ -304,8 +315,10 @@ fn plan(q: &Par) -> Plan {
             if q.opc == 70 { cin = q.cols[1]; cout = q.cols[0]; size = q.size[1]; } else { cin = q.cols[1]; cout = q.cols[0]; }
             cols = cin;
         }
+        if kind == K_C { cols = 1; size = 1; }
         let words = if kind == K_M || kind == K_V { rows * cin * cout * size } else { cols * size };
-        let mut h = Hdr { n: q.n, cols, size, max: size, len: q.n * words * w, w };
+        let hn = if kind == K_C { q.e[1].max(0) as usize } else { q.n };
+        let mut h = Hdr { n: hn, cols, size, max: size, len: hn * words * w, w };
         let mut start_shift = 0usize; let mut carved = false;
         if o == q.subj {
             match q.hist {
@@ -409,6 +422,12 @@ fn run_once(q: &Par, pl: &Plan, fill: u64, slack: usize, force: bool) -> Obs {
             43 => module.vec_znx_big_normalize_tmp_bytes(),
             45 => module.vec_znx_big_automorphism_assign_tmp_bytes(),
             51 => module.vec_znx_idft_apply_tmp_bytes(),
+            80 => module.cnv_prepare_left_tmp_bytes(o[0].h.size, o[1].h.size),
+            81 => module.cnv_prepare_right_tmp_bytes(o[0].h.size, o[1].h.size),
+            82 => module.cnv_apply_dft_tmp_bytes(q.e[0] as usize, o[0].h.size, o[1].h.size, o[2].h.size),
+            83 => module.cnv_pairwise_apply_dft_tmp_bytes(o[0].h.size, q.e[0] as usize, o[1].h.size, o[2].h.size),
+            84 => module.cnv_by_const_apply_tmp_bytes(q.e[0] as usize, o[0].h.size, o[1].h.size, q.e[1] as usize),
+            85 => module.cnv_prepare_self_tmp_bytes(o[0].h.size, o[2].h.size),
             70 => module.vmp_prepare_tmp_bytes(rows, o[0].cin, o[0].cout, o[0].h.size),
             71 => module.vmp_apply_dft_to_dft_tmp_bytes(o[0].h.size, o[1].h.size, rows, o[2].cin, o[2].cout, o[2].h.size),
             72 => module.vmp_apply_dft_tmp_bytes(o[0].h.size, o[1].h.size, rows, o[2].cin, o[2].cout, o[2].h.size),
@@ -473,7 +492,20 @@ fn run_once(q: &Par, pl: &Plan, fill: u64, slack: usize, force: bool) -> Obs {
             let foreign_n = h.n != n;   // an operand of another ring degree: DFT-domain images cannot be produced, raw words are used
             match kinds[k] {
                 _ if foreign_n && h.w != 16 => fill_words(sl(o[k].off, act_bytes / 8 * 8), &mut gd, bits),
-                K_Z | K_S | K_M => fill_words(sl(o[k].off, act_bytes / 8 * 8), &mut gd, bits),
+                K_Z | K_S | K_M | K_C => fill_words(sl(o[k].off, act_bytes / 8 * 8), &mut gd, if q.opc >= 80 { 10 } else { bits }),
+                K_L | K_R => {
+                    // a genuinely prepared convolution operand (from bounded coefficients)
+                    let mut z = VecZnx::alloc(n, h.cols, h.size);
+                    fill_words(&mut z.data, &mut gd, 10);
+                    let mut sc = ScratchOwned::<BE>::alloc(module.cnv_prepare_left_tmp_bytes(h.size, h.size).max(module.cnv_prepare_right_tmp_bytes(h.size, h.size)) + 4096);
+                    let db: Vec<u8> = if kinds[k] == K_L {
+                        let mut l = module.cnv_pvec_left_alloc(h.cols, h.size); module.cnv_prepare_left(&mut l, &z, -1, sc.borrow()); l.data().as_ref().to_vec()
+                    } else {
+                        let mut r = module.cnv_pvec_right_alloc(h.cols, h.size); module.cnv_prepare_right(&mut r, &z, -1, sc.borrow()); r.data().as_ref().to_vec()
+                    };
+                    let m = act_bytes.min(db.len());
+                    sl(o[k].off, m).copy_from_slice(&db[..m]);
+                }
                 K_B => {
                     if h.w == 8 { fill_words(sl(o[k].off, act_bytes / 8 * 8), &mut gd, 40) }
                     else { for c in sl(o[k].off, act_bytes / 16 * 16).chunks_exact_mut(16) { let v = (gd.i64() >> 8) as i128; c.copy_from_slice(&v.to_le_bytes()); } }
@@ -524,6 +556,8 @@ fn run_once(q: &Par, pl: &Plan, fill: u64, slack: usize, force: bool) -> Obs {
             macro_rules! vd { ($k:expr) => { VecZnxDft::<&mut [u8], BE> { data: sl(o[$k].off, o[$k].h.len), n: o[$k].h.n, cols: o[$k].h.cols, size: o[$k].h.size, max_size: o[$k].h.max, _phantom: std::marker::PhantomData } } }
             macro_rules! sz { ($k:expr) => { ScalarZnx { data: sl(o[$k].off, o[$k].h.len), n: o[$k].h.n, cols: o[$k].h.cols } } }
             macro_rules! sp { ($k:expr) => { SvpPPol::<&mut [u8], BE> { data: sl(o[$k].off, o[$k].h.len), n: o[$k].h.n, cols: o[$k].h.cols, _phantom: std::marker::PhantomData } } }
+            macro_rules! cl { ($k:expr) => { CnvPVecL::<&mut [u8], BE>::from_data(sl(o[$k].off, o[$k].h.len), o[$k].h.n, o[$k].h.cols, o[$k].h.size) } }
+            macro_rules! cr { ($k:expr) => { CnvPVecR::<&mut [u8], BE>::from_data(sl(o[$k].off, o[$k].h.len), o[$k].h.n, o[$k].h.cols, o[$k].h.size) } }
             macro_rules! mz { ($k:expr) => { MatZnx::from_data(sl(o[$k].off, o[$k].h.len), o[$k].h.n, o[$k].rows, o[$k].cin, o[$k].cout, o[$k].h.size) } }
             macro_rules! vm { ($k:expr) => { VmpPMat::<&mut [u8], BE>::from_data(sl(o[$k].off, o[$k].h.len), o[$k].h.n, o[$k].rows, o[$k].cin, o[$k].cout, o[$k].h.size) } }
             // ---- carving out of a scratch window: the object must be where the arena model says
@@ -537,6 +571,8 @@ fn run_once(q: &Par, pl: &Plan, fill: u64, slack: usize, force: bool) -> Obs {
                     K_D => { let (v, r) = win.take_vec_znx_dft(&module, h.cols, h.size); let v: VecZnxDft<&mut [u8], BE> = v; (v.data.as_ptr() as usize, v.data.len(), r.data.as_ptr() as usize, r.data.len()) }
                     K_S => { let (v, r) = win.take_scalar_znx(n, h.cols); (v.data.as_ptr() as usize, v.data.len(), r.data.as_ptr() as usize, r.data.len()) }
                     K_P => { let (v, r) = win.take_svp_ppol(&module, h.cols); let v: SvpPPol<&mut [u8], BE> = v; (v.data.as_ptr() as usize, v.data.len(), r.data.as_ptr() as usize, r.data.len()) }
+                    K_L => { let (v, r) = win.take_cnv_pvec_left(&module, h.cols, h.size); let v: CnvPVecL<&mut [u8], BE> = v; (v.data().as_ptr() as usize, v.data().len(), r.data.as_ptr() as usize, r.data.len()) }
+                    K_R => { let (v, r) = win.take_cnv_pvec_right(&module, h.cols, h.size); let v: CnvPVecR<&mut [u8], BE> = v; (v.data().as_ptr() as usize, v.data().len(), r.data.as_ptr() as usize, r.data.len()) }
                     K_M => { let (v, r) = win.take_mat_znx(n, o[k].rows, o[k].cin, o[k].cout, h.size); (v.data().as_ptr() as usize, v.data().len(), r.data.as_ptr() as usize, r.data.len()) }
                     _ => { let (v, r) = win.take_vmp_pmat(&module, o[k].rows, o[k].cin, o[k].cout, h.size); let v: VmpPMat<&mut [u8], BE> = v; (v.data().as_ptr() as usize, v.data().len(), r.data.as_ptr() as usize, r.data.len()) }
                 };
@@ -604,6 +640,15 @@ fn run_once(q: &Par, pl: &Plan, fill: u64, slack: usize, force: bool) -> Obs {
                 61 => module.svp_apply_dft(&mut vd!(0), rc, &sp!(1), ac, &vz!(2), bc),
                 62 => module.svp_apply_dft_to_dft(&mut vd!(0), rc, &sp!(1), ac, &vd!(2), bc),
                 63 => module.svp_apply_dft_to_dft_assign(&mut vd!(0), rc, &sp!(1), ac),
+                80 => module.cnv_prepare_left(&mut cl!(0), &vz!(1), -1, sc),
+                81 => module.cnv_prepare_right(&mut cr!(0), &vz!(1), -1, sc),
+                82 => module.cnv_apply_dft(e[0] as usize, &mut vd!(0), rc, &cl!(1), ac, &cr!(2), bc, sc),
+                83 => module.cnv_pairwise_apply_dft(e[0] as usize, &mut vd!(0), rc, &cl!(1), &cr!(2), ac, bc, sc),
+                84 => {
+                    let cst: &[i64] = unsafe { std::slice::from_raw_parts(sl(o[2].off, o[2].h.len).as_ptr() as *const i64, o[2].h.len / 8) };
+                    module.cnv_by_const_apply(e[0] as usize, &mut vb!(0), rc, &vz!(1), ac, cst, sc)
+                }
+                85 => module.cnv_prepare_self(&mut cl!(0), &mut cr!(1), &vz!(2), -1, sc),
                 70 => module.vmp_prepare(&mut vm!(0), &mz!(1), sc),
                 71 => module.vmp_apply_dft_to_dft(&mut vd!(0), &vd!(1), &vm!(2), e[1] as usize, sc),
                 72 => module.vmp_apply_dft(&mut vd!(0), &vz!(1), &vm!(2), sc),
@@ -874,8 +919,8 @@ fn mk(be: i128, opc: i64, n: usize, hist: i64, subj: usize, hp1: i64, hp2: i64, 
     Rec::new(17000, ps, vec![])
 }
 
-const OPS: [i64; 55] = [1, 2, 3, 4, 5, 6, 7, 8, 9, 10, 11, 12, 13, 14, 15, 16, 20, 21, 22, 23, 24, 25, 26, 27, 28, 29,
-                        40, 41, 42, 43, 44, 45, 46, 47, 48, 50, 51, 52, 53, 54, 55, 56, 57, 58, 60, 61, 62, 63, 70, 71, 72, 90, 91, 92, 93];
+const OPS: [i64; 61] = [1, 2, 3, 4, 5, 6, 7, 8, 9, 10, 11, 12, 13, 14, 15, 16, 20, 21, 22, 23, 24, 25, 26, 27, 28, 29,
+                        40, 41, 42, 43, 44, 45, 46, 47, 48, 50, 51, 52, 53, 54, 55, 56, 57, 58, 60, 61, 62, 63, 70, 71, 72, 80, 81, 82, 83, 84, 85, 90, 91, 92, 93];
 
 /// smallest ring degree the operation family is exercised with on a backend (the FFT64 transforms need n >= 16,
 /// the NTT120 ones n >= 2; see DESIGN / evidence notes)
@@ -887,6 +932,7 @@ fn min_n(be: i128, opc: i64) -> usize {
     if std::env::var("C17_MIN_N_1").is_ok() { return 1; }
     if opc < 50 { 1 }
     else if opc >= 90 { if be <= 2 { 16 } else { 2 } }
+    else if opc >= 80 { if std::env::var("C17_CNV_MIN1").is_ok() { 1 } else if be <= 2 { 8 } else { 2 } }
     else if opc >= 70 { if be <= 2 { 8 } else { 2 } }
     else if be <= 2 { 2 } else { 1 }
 }
@@ -926,6 +972,17 @@ pub fn gen_stream(tier: &str, seed: u64, zone: u8) -> Vec<Rec> {
                     70 => { e[0] = g.range(1, 3);
                             if zone == 2 && rep % 2 == 0 { e[0] = 1; sh[1][1] = 1; sh[0][0] = 1; sh[0][2] = 0; } }   // tiny matrices: the silent no-op case
                     71 | 72 => { e[0] = g.range(1, 3); e[1] = if opc == 71 { g.range(0, sh[2][1] as i64) } else { 0 }; sh[2][0] = 1; sh[2][2] = 0; }
+                    80 | 81 | 85 => { let c = g.range(1, 2) as usize; for o in 0..3 { sh[o][0] = c; sh[o][2] = g.below(c as u64) as usize; }
+                                      if opc == 85 { sh[1][1] = sh[0][1]; } }
+                    82 | 83 => {
+                        // a_size, b_size in 1..5 independently, result sizes giving odd and even numbers of computed limbs,
+                        // offsets 0..a+b, 1..2 columns
+                        for o in 0..3 { sh[o][1] = g.range(1, 5) as usize; }
+                        sh[0][1] = g.range(1, 7) as usize;
+                        e[0] = g.range(0, (sh[1][1] + sh[2][1]) as i64);
+                        if opc == 83 { let c = g.range(1, 2) as usize; sh[1][0] = c; sh[2][0] = c; sh[1][2] = g.below(c as u64) as usize; sh[2][2] = g.below(c as u64) as usize; }
+                    }
+                    84 => { sh[2] = [1, 1, 0]; e[1] = g.range(1, 5); e[0] = g.range(0, sh[1][1] as i64 + e[1]); }
                     90..=93 => {
                         let rank = g.range(1, 2) as usize;
                         e[0] = g.range(8, 17); e[2] = rank as i64; e[3] = g.range(1, 2);
@@ -939,7 +996,7 @@ pub fn gen_stream(tier: &str, seed: u64, zone: u8) -> Vec<Rec> {
                 }
                 if opc >= 90 && zone != 0 { continue; }
                 // history: which operand, which kind of history it admits
-                let subj = { let c: Vec<usize> = (0..3).filter(|o| kinds[*o] != K_NONE).collect(); c[g.below(c.len() as u64) as usize] };
+                let subj = { let c: Vec<usize> = (0..3).filter(|o| kinds[*o] != K_NONE && kinds[*o] != K_C).collect(); c[g.below(c.len() as u64) as usize] };
                 let kind = kinds[subj];
                 let mut hs: Vec<i64> = vec![0, 0, 7, 8];
                 if kind == K_Z || kind == K_D { hs.extend([1, 1]); }
